@@ -56,7 +56,7 @@ var (
 	c09Selectors = []string{"*", "key", "key, rpc_address", "count(*)", "peer, data_center AS dc", "now()", "JSON *", "DISTINCT key", "writetime(key)", "host_id, tokens", "*, key", "a.b", "\"Quoted\", x",
 		// selector text the proxy's lexer has no token for: the table decides, not the select clause
 		"key % 2", "@key", "é", "key ^ 2, *", "a | b", "key # 1", "~key", "100%"}
-	c09Tails     = []string{"", " LIMIT 10", " ALLOW FILTERING", " ORDER BY k DESC", " LIMIT 1 ALLOW FILTERING", " AND peer = '127.0.0.1'", " AND x IN (1, 2)", " PER PARTITION LIMIT 2"}
+	c09Tails = []string{"", " LIMIT 10", " ALLOW FILTERING", " ORDER BY k DESC", " LIMIT 1 ALLOW FILTERING", " AND peer = '127.0.0.1'", " AND x IN (1, 2)", " PER PARTITION LIMIT 2"}
 )
 
 func c09Gen(rt *rapid.T, withToken bool) c09Stmt {
@@ -361,7 +361,7 @@ func TestC09(t *testing.T) {
 		}
 		return ""
 	}
-	runProp(t, rec, "parser", perShard(evid.Pick(40000, 4000000)), func(rt *rapid.T) c09Stmt {
+	runProp(t, rec, "parser", perShard(evid.Pick(100000, 4000000)), func(rt *rapid.T) c09Stmt {
 		s := c09Gen(rt, false)
 		rec.Case(classify(s), c09Class(s), fmt.Sprintf("handled:%v", s.Handled))
 		if rec.Evals()%1000 == 1 {
